@@ -1,6 +1,8 @@
 package faults
 
 import (
+	"go/scanner"
+	"go/token"
 	"io"
 
 	"verifsim/tape"
@@ -79,10 +81,11 @@ const (
 	SfDupRange
 	SfSwapRanges
 	SfSyntaxByte // overwrite one byte with a syntactically significant character
+	SfComment    // a comment appears at a token boundary (stray bytes that happen to lex as a comment)
 	NumStorageFaults
 )
 
-var StorageFaultNames = [...]string{"truncate", "bitflip", "zero-range", "garbage-range", "drop-range", "dup-range", "swap-ranges", "syntax-byte"}
+var StorageFaultNames = [...]string{"truncate", "bitflip", "zero-range", "garbage-range", "drop-range", "dup-range", "swap-ranges", "syntax-byte", "comment-insert"}
 
 const syntaxBytes = "{}()[];,.\"'`/*\n\\:=<>&|!+-\x00\xff"
 
@@ -140,6 +143,15 @@ func Corrupt(t *tape.Tape, data []byte, kind int) ([]byte, string) {
 		res = append(res, out[a:b]...)
 		res = append(res, out[d:]...)
 		return res, sprintf("swap[%d:%d]<->[%d:%d]", a, b, c, d)
+	case SfComment:
+		offs := TokenOffsets(data)
+		if len(offs) == 0 {
+			return out, "noop(no tokens)"
+		}
+		k := offs[t.Draw(len(offs))]
+		c := CommentTexts[t.Draw(len(CommentTexts))]
+		res := append(append(append([]byte(nil), out[:k]...), c...), out[k:]...)
+		return res, sprintf("comment@%d=%q", k, c)
 	case SfSyntaxByte:
 		k := t.Draw(n)
 		c := syntaxBytes[t.Draw(len(syntaxBytes))]
@@ -147,6 +159,32 @@ func Corrupt(t *tape.Tape, data []byte, kind int) ([]byte, string) {
 		return out, sprintf("byte@%d=%q", k, c)
 	}
 	panic("bad storage fault kind")
+}
+
+// CommentTexts are the comments the comment-insertion fault places.
+var CommentTexts = []string{"/*c*/", "//c\n", "/*c\nd*/", " /*c*/ "}
+
+// TokenOffsets returns the byte offset of every token of src (as far as it scans).
+func TokenOffsets(src []byte) []int {
+	var s scanner.Scanner
+	fset := token.NewFileSet()
+	f := fset.AddFile("", fset.Base(), len(src))
+	s.Init(f, src, func(token.Position, string) {}, scanner.ScanComments)
+	var offs []int
+	for {
+		pos, tok, _ := s.Scan()
+		if tok == token.EOF {
+			break
+		}
+		if tok == token.SEMICOLON && !pos.IsValid() {
+			continue
+		}
+		o := f.Offset(pos)
+		if len(offs) == 0 || offs[len(offs)-1] != o {
+			offs = append(offs, o)
+		}
+	}
+	return append(offs, len(src))
 }
 
 func min(a, b int) int {
